@@ -45,6 +45,7 @@ def run(ctx):
         h = Harness(it)
         it.hooks['harness'] = h
         it.hooks['external_call'] = ext_calls(h)
+        h.install_ownership_monitor()      # a message handed to send() must not be written again (lazy encoder)
         asce, c = h.new_asce(), h.new_ctx()
         req = h.new_message(dm.attrs['CMoveRQMessage'], message_id=fresh16(it, 'message_id'),
                             sop_class_uid=p.fresh('sop_class_uid', smt.Str),
@@ -98,6 +99,7 @@ def run(ctx):
         h = Harness(it)
         it.hooks['harness'] = h
         it.hooks['external_call'] = ext_calls(h)
+        h.install_ownership_monitor()      # a message handed to send() must not be written again (lazy encoder)
         asce, c = h.new_asce(), h.new_ctx()
         ae = asce.fields['ae']
         # every arrival context id is a negotiated one (acceptor routes only accepted contexts)
@@ -180,6 +182,6 @@ def run(ctx):
         'storage service are oracles returning an arbitrary status',
         'C-GET user: received messages are arbitrary C-STORE-RQ / C-GET-RSP / other messages on arbitrary context ids '
         'that were negotiated (present in the context table)',
-        'lazy encoding of sent messages is covered by the ownership clause of C16 (a message is not written after send)',
+        'send() hands the message to a lazy encoder: every store to a message that may already have been sent is an ownership obligation (#owned)',
         'pydicom Dataset on command sets modelled (pyvc/dsmodel.py); dsutils codecs opaque',
     ]
